@@ -231,6 +231,16 @@ func ruleCodeTable(c *chk.Ctx, d *dispatchModel) {
 				if _, fv, ok := taskFieldLoad(c, x); ok && fv == c.M.TM {
 					role = "unknown method"
 				}
+				// (or the handler just looked up, tested in a local before or after it is stored)
+				if refs := x.Referrers(); refs != nil {
+					for _, ref := range *refs {
+						if st, isSt := ref.(*ssa.Store); isSt && st.Val == x {
+							if fa, isFA := st.Addr.(*ssa.FieldAddr); isFA && ir.FieldVar(fa) == c.M.TM {
+								role = "unknown method"
+							}
+						}
+					}
+				}
 			}
 			if x, eq, ok := ir.NilCompare(cd.V); ok && eq != cd.Truth {
 				if _, isLk := x.(*ssa.Lookup); isLk && role == "" {
@@ -1394,11 +1404,71 @@ func ruleErrorCodeOrder(c *chk.Ctx) {
 	type row struct {
 		val   ssa.Value
 		conds []ir.Cond
+		extra []string // outcomes already rendered (a table-driven loop unrolled)
 	}
 	var raw []row
+	loops := map[*ssa.Function]*ir.TableLoop{}
 	for _, r := range effectiveReturns(c, f, 0) {
 		v := ir.ReturnResult(r, 0)
 		conds := c.P.CondsWithin(r, f)
+		// `for _, e := range table { if errors.Is(err, e.target) { return e.code } }` over a
+		// package-level table of constants is the chain of tests it unrolls to, in table order
+		tl, seen := loops[r.Parent()]
+		if !seen {
+			tl = c.P.FindTableLoop(r.Parent())
+			loops[r.Parent()] = tl
+		}
+		if tl != nil {
+			var rest []ir.Cond
+			target := -1
+			for _, cd := range conds {
+				if tl.IsIndexCond(cd) {
+					continue
+				}
+				if call, ok := cd.V.(*ssa.Call); ok && cd.Truth && ir.IsCallTo(&call.Call, "errors.Is") {
+					if k, isF := tl.Field(call.Call.Args[1]); isF {
+						target = k
+						continue
+					}
+				}
+				rest = append(rest, cd)
+			}
+			isName := func(i, k int) string {
+				if g := globalLoad(tl.Rows[i][k]); g != nil {
+					return "Is(" + g.Name() + ")"
+				}
+				return "Is(?)"
+			}
+			if fk, isF := tl.Field(v); isF && target >= 0 {
+				for i := range tl.Rows {
+					extra := []string{isName(i, target)}
+					for j := 0; j < i; j++ {
+						extra = append(extra, "¬"+isName(j, target))
+					}
+					raw = append(raw, row{tl.Rows[i][fk], rest, extra})
+				}
+				continue
+			}
+			if tl.Done.Dominates(r.Block()) {
+				// which field the loop tests: the errors.Is in its body
+				tf := -1
+				for _, ins := range tl.Body.Instrs {
+					if call, ok := ins.(*ssa.Call); ok && ir.IsCallTo(&call.Call, "errors.Is") {
+						if k, isF := tl.Field(call.Call.Args[1]); isF {
+							tf = k
+						}
+					}
+				}
+				if tf >= 0 {
+					var extra []string
+					for j := range tl.Rows {
+						extra = append(extra, "¬"+isName(j, tf))
+					}
+					raw = append(raw, row{v, rest, extra})
+					continue
+				}
+			}
+		}
 		// `code, ok := h(err); if ok { return code }`: the value is what h returns where ok is true
 		if e, isE := v.(*ssa.Extract); isE {
 			if call, isCall := e.Tuple.(*ssa.Call); isCall {
@@ -1415,7 +1485,7 @@ func ruleErrorCodeOrder(c *chk.Ctx) {
 							if !isK || k.Value == nil || (k.Value.String() == "true") != cd.Truth {
 								continue
 							}
-							raw = append(raw, row{ir.ReturnResult(r2, e.Index), append(append([]ir.Cond{}, rest...), ir.CondsAt(r2.Block())...)})
+							raw = append(raw, row{ir.ReturnResult(r2, e.Index), append(append([]ir.Cond{}, rest...), ir.CondsAt(r2.Block())...), nil})
 							done = true
 						}
 						break
@@ -1426,7 +1496,7 @@ func ruleErrorCodeOrder(c *chk.Ctx) {
 				}
 			}
 		}
-		raw = append(raw, row{v, conds})
+		raw = append(raw, row{v, conds, nil})
 	}
 	isErrPred := func(cd ir.Cond) bool {
 		call, ok := cd.V.(*ssa.Call)
@@ -1466,6 +1536,7 @@ func ruleErrorCodeOrder(c *chk.Ctx) {
 				}
 				conds = append(conds, d)
 			}
+			conds = append(conds, rw.extra...)
 			sort.Strings(conds)
 			conds = dedupStrings(conds)
 			rows = append(rows, res+" ⇐ "+strings.Join(conds, " ∧ "))
@@ -1626,9 +1697,9 @@ func ruleInvokeResultsMarshalled(c *chk.Ctx, d *dispatchModel) {
 	// D6: every result the invoke function returns is json.Marshal's (bytes, error) pair, unmodified
 	okPair, n := true, 0
 	var bad string
-	for _, r := range ir.Returns(d.invoke) {
-		v0 := ir.ReturnResult(r, 0)
-		if ir.IsNilConst(v0) {
+	for _, r := range invokeOutcomes(c, d) {
+		v0 := r.val
+		if v0 != nil && ir.IsNilConst(v0) {
 			continue
 		}
 		n++
@@ -1636,14 +1707,14 @@ func ruleInvokeResultsMarshalled(c *chk.Ctx, d *dispatchModel) {
 			v0 = ct.X
 		}
 		good := false
-		if e, ok := v0.(*ssa.Extract); ok && e.Index == 0 {
-			if call, ok := e.Tuple.(*ssa.Call); ok && ir.IsCallTo(&call.Call, "encoding/json.Marshal") && ir.IsExtractOf(ir.ReturnResult(r, 1), call, 1) {
+		if e, ok := v0.(*ssa.Extract); ok && e.Index == 0 && r.err != nil {
+			if call, ok := e.Tuple.(*ssa.Call); ok && ir.IsCallTo(&call.Call, "encoding/json.Marshal") && ir.IsExtractOf(r.err, call, 1) {
 				good = true
 			}
 		}
 		if !good {
 			okPair = false
-			bad = c.P.Pos(r.Pos())
+			bad = c.P.Pos(r.at.Pos())
 		}
 	}
 	c.Check(okPair && n > 0, "PROV.errmap", d.invoke, "results are exactly json.Marshal's pair", d.invoke.Pos(), "every non-nil result of the invoke function is json.Marshal's (bytes, error) pair: an unmarshalable or invalid value becomes the call's error, never part of the reply", "the invoke function can return result bytes that did not come out of json.Marshal (at "+bad+"): a handler value that is not valid JSON would be spliced into the reply verbatim, or a marshal error lost")
@@ -1660,10 +1731,10 @@ func taOperand(ta *ssa.TypeAssert) ssa.Value {
 func ruleClientErrorMapping(c *chk.Ctx) {
 	// the settle function (receives from the slot): err ← raw.E, result ← raw.R
 	var settle *ssa.Function
-	var recv *ssa.UnOp
+	var recv ssa.Value
 	for _, f := range pkgFuncs(c, c.M.Pkg) {
 		ir.Instrs(f, func(ins ssa.Instruction) {
-			if u, ok := ins.(*ssa.UnOp); ok && u.Op == token.ARROW && chk.LoadsField(u.X, c.M.RCh) {
+			if u, _, ok := slotRecvAt(c, ins); ok {
 				settle, recv = f, u
 			}
 		})
@@ -1688,7 +1759,7 @@ func ruleClientErrorMapping(c *chk.Ctx) {
 				return false
 			}
 			e, ok := c.P.Canon(fa.X).(*ssa.Extract)
-			return ok && e.Tuple == ssa.Value(recv) && e.Index == 0
+			return ok && e.Tuple == recv && e.Index == 0
 		}
 		if chk.IsField(st.Addr, c.M.RErr) && fromRaw(st.Val, c.M.JE) {
 			okE = true
